@@ -133,26 +133,38 @@ def _extend(beh, nodes, adj):
 
 
 def _behaviours(nodes, edges, inits, seed, T):
-    behs, gstat = vlib.graph_behaviours(nodes, edges, inits, seed, max_extra=10 ** 9, state_vars=STATE_VARS)
+    """cover of the dumped graph: every BFS-tree leaf of the timer half + a seeded sample of its non-tree edges, a seeded
+    sample of leaves / non-tree edges of the controller half (only the selected paths are materialised)"""
+    parent = vlib.bfs_paths(nodes, edges, inits)
     adj = {}
     for a, b, _ in edges:
         adj.setdefault(a, []).append(b)
+    is_parent = set(x for x in parent.values() if x is not None)
     rng = random.Random(seed)
-    timer, ctl = {"leaf": [], "edge": []}, {"leaf": [], "edge": []}
-    for b in behs:
-        part = b["steps"][0]["act"].get("part")
-        kind = "leaf" if b["id"].startswith("cover-leaf") else "edge"
-        (timer if part == "timer" else ctl)[kind].append(b)
-    for d in (timer, ctl):
-        rng.shuffle(d["edge"])
+    sel = {"timer": {"leaf": [], "edge": []}, "ctl": {"leaf": [], "edge": []}}
+    for n in parent:
+        if n not in is_parent:
+            sel[nodes[n]["part"]]["leaf"].append(n)
+    for a, b, _ in edges:
+        if a != b and a in parent and parent.get(b) != a:
+            sel[nodes[a]["part"]]["edge"].append((a, b))
+    for d in sel.values():
+        d["leaf"].sort()
+        d["edge"].sort()
         rng.shuffle(d["leaf"])
-    tsel = timer["leaf"] + timer["edge"][:T["timer_extra"]]
-    csel = ctl["leaf"][:T["ctl_leaves"]] + ctl["edge"][:T["ctl_extra"]]
+        rng.shuffle(d["edge"])
+    gstat = {"nodes": len(nodes), "edges": len(edges),
+             "timer_leaves": len(sel["timer"]["leaf"]), "timer_edges_total": len(sel["timer"]["edge"]),
+             "ctl_leaves_total": len(sel["ctl"]["leaf"]), "ctl_edges_total": len(sel["ctl"]["edge"])}
+
+    def mk(path, ident):
+        return {"id": ident, "kind": "cover", "steps": [_row(nodes[x]) for x in path]}
+    tsel = [mk(vlib.path_to(parent, n), "cover-leaf-%s" % n) for n in sel["timer"]["leaf"]] + \
+        [mk(vlib.path_to(parent, a) + [b], "cover-edge-%s-%s" % (a, b)) for a, b in sel["timer"]["edge"][:T["timer_extra"]]]
+    csel = [mk(vlib.path_to(parent, n), "cover-leaf-%s" % n) for n in sel["ctl"]["leaf"][:T["ctl_leaves"]]] + \
+        [mk(vlib.path_to(parent, a) + [b], "cover-edge-%s-%s" % (a, b)) for a, b in sel["ctl"]["edge"][:T["ctl_extra"]]]
     tsel = [_extend(b, nodes, adj) for b in tsel]
-    gstat.update({"timer_leaves": len(timer["leaf"]), "timer_edges_total": len(timer["edge"]),
-                  "ctl_leaves_total": len(ctl["leaf"]), "ctl_edges_total": len(ctl["edge"]),
-                  "timer_selected": len(tsel), "ctl_selected": len(csel)})
-    gstat.pop("extra_edges", None)
+    gstat.update({"timer_selected": len(tsel), "ctl_selected": len(csel)})
     return tsel + csel, gstat
 
 
